@@ -274,6 +274,84 @@ theorem groups_distinct (jump : Nat → Nat → Nat) (C : Calc) (hC : CalcSpec C
       simp only [sameShard, beq_iff_eq] at hp ⊢
       omega
 
+/-- **routing does not depend on which shard channels exist**: the groups are formed with the
+configured shard count `n`; with an arbitrary set `present` of existing channels
+ (1) what is delivered, over all groups, is exactly the rows whose shard `jump hash n` is present — each once;
+ (2) every delivered group has a present shard below `n`, the jump hash of each member;
+ (3) channel-not-found is returned only if some row of the batch belongs to an absent shard
+ (by (1) such rows are delivered nowhere and the rows of present shards all are). The converse of (3)
+ does not hold in the code: a later successful family write overwrites the error
+ (`Neg.channel_not_found_error_overwritten`); C16 does not speak about the error, so this is recorded
+ as an observation, not as a finding. -/
+theorem absent_shards_isolated (jump : Nat → Nat → Nat) (C : Calc) (hC : CalcSpec C)
+    {sortShard sortTs : List BRow → List BRow}
+    (hss : SortSpec lessShard sortShard) (hst : SortSpec lessTs sortTs)
+    (n : Nat) (hj : ∀ k, jump k n < n) (present : Nat → Bool) (rows : List BRow) :
+    let d := deliver present (route jump C sortShard sortTs n rows)
+    (d.1.flatMap (fun g => g.rows)).Perm ((assignShards jump n rows).filter (fun r => present r.shard)) ∧
+    (∀ g ∈ d.1, g.shard < n ∧ present g.shard = true ∧ ∀ r ∈ g.rows, r.shard = g.shard ∧ r.shard = jump r.row.hash n) ∧
+    (d.2 = true → ∃ r ∈ rows, present (jump r.row.hash n) = false) := by
+  intro d
+  obtain ⟨hperm, hgroups⟩ := partition jump C hC hss hst n hj rows
+  have hshard : ∀ g ∈ route jump C sortShard sortTs n rows, ∀ r ∈ g.rows, r.shard = g.shard :=
+    fun g hg r hr => ((hgroups g hg).2.2 r hr).1
+  have hflat : ∀ (gs : List Group), (∀ g ∈ gs, ∀ r ∈ g.rows, r.shard = g.shard) →
+      (gs.filter (fun g => present g.shard)).flatMap (fun g => g.rows) =
+        (gs.flatMap (fun g => g.rows)).filter (fun r => present r.shard) := by
+    intro gs
+    induction gs with
+    | nil => intro _; rfl
+    | cons g rest ih =>
+      intro h
+      have ih' := ih (fun g' hg' => h g' (List.mem_cons_of_mem _ hg'))
+      have hg : ∀ r ∈ g.rows, r.shard = g.shard := h g List.mem_cons_self
+      simp only [List.filter_cons, List.flatMap_cons, List.filter_append]
+      by_cases hp : present g.shard = true
+      · have : g.rows.filter (fun r => present r.shard) = g.rows := by
+          apply List.filter_eq_self.2
+          intro r hr
+          rw [hg r hr]; exact hp
+        simp only [hp, if_true, List.flatMap_cons, ih', this]
+      · have : g.rows.filter (fun r => present r.shard) = [] := by
+          apply List.filter_eq_nil_iff.2
+          intro r hr
+          rw [hg r hr]; exact hp
+        simp only [hp, this, List.nil_append, Bool.false_eq_true, if_false]
+        exact ih'
+  refine ⟨?_, ?_, ?_⟩
+  · show ((route jump C sortShard sortTs n rows).filter (fun g => present g.shard)).flatMap (fun g => g.rows) |>.Perm _
+    rw [hflat _ hshard]
+    exact hperm.filter _
+  · intro g hg
+    have hg' := List.mem_filter.1 hg
+    obtain ⟨hlt, _, hmem⟩ := hgroups g hg'.1
+    exact ⟨hlt, hg'.2, fun r hr => ⟨(hmem r hr).1, (hmem r hr).2.1⟩⟩
+  · intro hd
+    have hany : ∃ g ∈ route jump C sortShard sortTs n rows, present g.shard = false := by
+      have key : ∀ (gs : List Group) (b : Bool), gs.foldl (fun _ g => !present g.shard) b = true →
+          b = true ∨ ∃ g ∈ gs, present g.shard = false := by
+        intro gs
+        induction gs with
+        | nil => intro b h; exact Or.inl h
+        | cons g rest ih =>
+          intro b h
+          rcases ih _ h with h1 | ⟨g', hg', hp⟩
+          · exact Or.inr ⟨g, List.mem_cons_self, by simpa using h1⟩
+          · exact Or.inr ⟨g', List.mem_cons_of_mem _ hg', hp⟩
+      rcases key _ false hd with h | h
+      · cases h
+      · exact h
+    obtain ⟨g, hg, hp⟩ := hany
+    obtain ⟨_, hne, hmem⟩ := hgroups g hg
+    obtain ⟨r, hr⟩ := List.exists_mem_of_ne_nil _ hne
+    have hrin : r ∈ assignShards jump n rows := hperm.subset (List.mem_flatMap.2 ⟨g, hg, hr⟩)
+    obtain ⟨r₀, hr₀, rfl⟩ := List.mem_map.1 hrin
+    refine ⟨r₀, hr₀, ?_⟩
+    have := (hmem _ hr).1
+    simp only at this
+    rw [this]
+    exact hp
+
 /-- **evict_exact** (row level): in a batch whose slots carry no stale mark, a row is marked
 — and therefore not written — iff its timestamp is outside the write window; the returned count is
 the number of such rows; nothing else about a row changes. -/
@@ -456,11 +534,28 @@ theorem isSameFamily_expected : Generated.C16.isSameFamilySrc =
 theorem hasNextFamily_expected : Generated.C16.hasNextFamilySrc =
   "if itr.groupEnd >= len(itr.rows) || itr.groupStart > itr.groupEnd { return false } ; if itr.sameFamily { itr.groupEnd = len(itr.rows) itr.groupStart = 0 return true } ; firstTimestamp := itr.rows[itr.groupEnd].m.Timestamp() ; timeRange := itr.timeRangeOfTimestamp(firstTimestamp) ; itr.groupStart = itr.groupEnd ; itr.groupFamilyTime = itr.familyTimeOfTimestamp(firstTimestamp) ; for itr.groupEnd < len(itr.rows) { if !timeRange.Contains(itr.rows[itr.groupEnd].m.Timestamp()) { break } itr.groupEnd++ } ; return itr.groupStart < itr.groupEnd" := rfl
 
-/-- `route`: evict, shard groups, family groups, write — in this order -/
+/-- `route` / `deliver`: evict, shard groups (by the CONFIGURED shard count `dc.numOfShard`, not by
+the channels that happen to exist), channel lookup per shard group, family groups, write — in this order -/
 theorem channelWriteCalls_expected : Generated.C16.channelWriteCalls =
   ["brokerBatchRows.EvictOutOfTimeRange", "brokerBatchRows.NewShardGroupIterator", "shardingIterator.HasRowsForNextShard",
-   "shardingIterator.FamilyRowsForNextShard", "familyIterator.HasNextFamily", "familyIterator.NextFamily",
+   "shardingIterator.FamilyRowsForNextShard", "dc.getChannelByShardID", "familyIterator.HasNextFamily", "familyIterator.NextFamily",
    "channel.GetOrCreateFamilyChannel", "familyChannel.Write"] := rfl
+theorem channelWriteShardCountArg_expected : Generated.C16.channelWriteShardCountArg = "dc.numOfShard.Load()" := rfl
+theorem channelWriteChannelLookup_expected : Generated.C16.channelWriteChannelLookup = "dc.getChannelByShardID(shardID)" := rfl
+theorem getChannelByShardID_expected : Generated.C16.getChannelByShardIDSrc =
+  "ch, ok := dc.shardChannels.value.Load().(shard2Channel)[shardID] ; return ch, ok" := rfl
+
+/-- flat decoder: every row starts from an empty builder and empty histogram scratch slices, whatever
+happened to the previous row (accepted, rejected at any point) — the flat counterpart of
+`row_independent_of_batch`, which is only correspondence-tested -/
+theorem flatResetForNextDecode_expected : Generated.C16.flatResetForNextDecodeSrc =
+  "itr.rowBuilder.Reset() ; itr.compoundValues = itr.compoundValues[:0] ; itr.compoundBounds = itr.compoundBounds[:0]" := rfl
+theorem flatDecodeToCalls_expected : Generated.C16.flatDecodeToCalls =
+  ["itr.resetForNextDecode", "itr.rebuild", "rowBuilder.Build", "row.FromBlock"] := rfl
+theorem flatRebuildCalls_expected : Generated.C16.flatRebuildCalls =
+  ["rowBuilder.AddTag", "rowBuilder.AddTag", "rowBuilder.AddSimpleField", "append", "append",
+   "rowBuilder.AddCompoundFieldData", "rowBuilder.AddCompoundFieldMMSC", "rowBuilder.AddMetricName",
+   "rowBuilder.AddTimestamp", "rowBuilder.AddNameSpace"] := rfl
 
 /-- The variant of KeyValues.Less the code has selects the variant of `less` the driver runs
 (`Generated.C16.lessTieBreakOnValue`); the variant of the append path selects `appendAll`'s `clears`
@@ -578,6 +673,14 @@ theorem fresh_keeps_in_window_row :
     ((evict 10 10 1000 (appendAll false [] [rowIn])).filter (fun r => !r.oor)).length = 1 ∧
     ((evict 10 10 1000 (appendAll true [true] [rowIn])).filter (fun r => !r.oor)).length = 1 := by
   decide
+
+/-- databaseChannel.Write: shard 1 has no channel, shard 2 has one: the group of shard 1 is skipped, the
+group of shard 2 is written, and the returned error is nil (`deliver … .2 = false`) although rows were
+dropped for want of a channel. (Observation outside C16's statement.) -/
+theorem channel_not_found_error_overwritten :
+    deliver (fun s => s == 2) [⟨1, 0, []⟩, ⟨2, 0, []⟩] = ([⟨2, 0, []⟩], false) ∧
+    deliver (fun s => s == 1) [⟨1, 0, []⟩, ⟨2, 0, []⟩] = ([⟨1, 0, []⟩], true) := by
+  constructor <;> rfl
 
 end Neg
 
